@@ -43,6 +43,7 @@ type FaultKind byte
 const (
 	FaultFail  FaultKind = 'f' // (0, ErrInjected), nothing written
 	FaultShort FaultKind = 's' // first N bytes written, (N, ErrInjected)
+	FaultLate  FaultKind = 'l' // everything written, (len(p), ErrInjected): the error arrives with a full count
 )
 
 // Fault is a transient fault on one write call.
@@ -204,6 +205,9 @@ func (d *Disk) WriteAt(p []byte, off int64) (int, error) {
 				d.apply(p[:n], off)
 			}
 			return n, ErrInjected
+		case FaultLate:
+			d.apply(p, off)
+			return len(p), ErrInjected
 		}
 	}
 	d.apply(p, off)
